@@ -6,6 +6,7 @@ A2 every json.load of a shared path tolerates a missing / undecodable file
 A3 no check-then-act creation of a shared path (exists() guarding an in-place create)
 """
 import ast
+import re
 
 from ..engine.program import AnalysisError, dotted, src, walk_no_nested, call_name, enclosing_function, enclosing_stmt
 from ..engine import flow
@@ -299,7 +300,91 @@ def a7(prog, ctx):
     ctx.floor("A7", "calls of compare_stored_gtf on the paths of the conversion look-up", n, 1)
 
 
+PRIVATE_NAME = re.compile(r"getpid|uuid|mkstemp|mkdtemp|NamedTemporaryFile|TemporaryDirectory|token_hex|urandom")
+
+
+def a8(prog, ctx):
+    """A file that a run creates in a directory it shares with the user's other runs (the system temporary directory, the per-user config
+    directory) carries a process-private component in its name, or comes from mkstemp / mkdtemp: two runs must never build the same path."""
+    n = 0
+    for m, q, f in prog.all_functions():
+        for c in walk_no_nested(f):
+            if not (isinstance(c, ast.Call) and (call_name(c) or "") in ("tempfile.gettempdir", "gettempdir")):
+                continue
+            n += 1
+            # the path expression the directory is built into, followed through a local
+            e = c
+            while isinstance(getattr(e, "_parent", None), (ast.Call, ast.BinOp, ast.JoinedStr, ast.FormattedValue)) and \
+                    not (isinstance(e._parent, ast.Call) and (call_name(e._parent) or "").split(".")[-1] not in ("join", "format", "abspath", "normpath", "str")):
+                e = e._parent
+            text = src(e)
+            st = enclosing_stmt(c)
+            if isinstance(st, ast.Assign) and isinstance(st.targets[0], ast.Name) and st.value is c:
+                # tmp = tempfile.gettempdir(): look at the joins that use it
+                uses = [x for x in walk_no_nested(f) if isinstance(x, ast.Call) and (call_name(x) or "").endswith("join")
+                        and any(src(a) == st.targets[0].id for a in x.args)]
+                text = " ".join(src(u) for u in uses) or text
+            if PRIVATE_NAME.search(text):
+                ctx.ok("A8", "%s:%d" % (m.rel, c.lineno), "%s: path under the temporary directory is process-private (%s)" % (q, text[:60]))
+            else:
+                ctx.fail("A8", c, q, text[:90], "a file name under the system temporary directory is built from %s without a process-private "
+                         "component: two runs of the same user that work on equally named inputs build, overwrite and move the same file - one "
+                         "run ends up with the other's data (or fails when the file has been moved away)" % text[:70])
+    ctx.ok("A8", "all modules", "%d uses of the system temporary directory, all with process-private names" % n, nontrivial=False)
+
+
+def a9(prog, ctx, shared):
+    """A run deletes in the shared per-user directory only what it created itself: never files it found by listing that directory."""
+    n = 0
+    for m, q, f in prog.all_functions():
+        listings = {}
+        for lp in [l for l in walk_no_nested(f) if isinstance(l, ast.For)]:
+            it = src(lp.iter)
+            if re.search(r"os\.listdir|glob\.|os\.scandir|iterdir\(", it):
+                for x in ast.walk(lp.target):
+                    if isinstance(x, ast.Name):
+                        listings[x.id] = lp
+        if not listings:
+            continue
+        env = {}
+        for st in walk_no_nested(f):
+            if isinstance(st, ast.Assign) and len(st.targets) == 1 and isinstance(st.targets[0], ast.Name):
+                env.setdefault(st.targets[0].id, []).append(st.value)
+        for c in walk_no_nested(f):
+            if not (isinstance(c, ast.Call) and (call_name(c) or "") in ("os.remove", "os.unlink", "shutil.rmtree", "os.rmdir") and c.args):
+                continue
+            names = {x.id for x in ast.walk(c.args[0]) if isinstance(x, ast.Name)}
+            for nm in list(names):
+                for v in env.get(nm, []):
+                    names |= {x.id for x in ast.walk(v) if isinstance(x, ast.Name)}
+            found = names & set(listings)
+            if not found:
+                continue
+            lp = listings[sorted(found)[0]]
+            # which directory is listed?
+            dir_roots = {x.id for x in ast.walk(lp.iter) if isinstance(x, ast.Name)} | {x.attr for x in ast.walk(lp.iter) if isinstance(x, ast.Attribute)}
+            for nm in [x for x in dir_roots if x in env]:
+                for v in env[nm]:
+                    dir_roots |= {x.attr for x in ast.walk(v) if isinstance(x, ast.Attribute)}
+            if not (dir_roots & set(shared)):
+                continue
+            n += 1
+            own = any(PRIVATE_NAME.search(src(t)) for t, pol in flow.guard_facts(enclosing_stmt(c), stop=f) if pol)
+            if own:
+                ctx.ok("A9", "%s:%d" % (m.rel, c.lineno), "%s deletes listed files only under a test for its own process-private name" % q)
+            else:
+                ctx.fail("A9", c, q, src(c)[:80], "files found by listing the shared per-user directory (%s) are deleted without a test that they "
+                         "belong to this process: the temporary file of another run that is between writing and publishing its cache "
+                         "disappears, and that run aborts" % src(lp.iter)[:50])
+    ctx.ok("A9", "all modules", "%d deletions of files listed from the shared directory" % n, nontrivial=False)
+
+
 def run(prog, ctx):
+    ctx.rule("A8", "every path built under tempfile.gettempdir() contains a process-private component (pid, uuid, mkstemp ...)")
+    a8(prog, ctx)
+    ctx.rule("A9", "no os.remove / unlink / rmtree is applied to a name obtained by listing a directory derived from the shared per-user "
+                   "config paths, except under a test for the process's own private name")
+    a9(prog, ctx, shared_attrs(prog))
     ctx.rule("A5", "every store_*(artefact, ...) call registers a local whose every reaching definition is a producer call of this run "
                    "(or a fresh path under args.output filled by a converter call in the same block); user-supplied or looked-up files "
                    "are never registered under the input's key")
